@@ -111,10 +111,10 @@ _PLSS_TIE = ('Tied to plss_parse.py / plss_preprocess.py / plssdesc.py by the re
 PROPS['C01'] = {
     'group': 'plss', 'level': 'proof', 'build_timeout': 2400,
     'explanation': 'PARTIAL. The whole parse pipeline (preprocess, finders, chunker, marker walk, clean-up, tract construction, tract parsing) is modelled in Coq and agrees with the code on every '
-                   'compared run; the four documented layout examples are proved by computation on the regenerated patterns (C01_documented_examples). Unbounded theorem for the Twp/Rge-Sec-desc layout '
-                   '(C01_walk_trs_desc): for ANY number of Twp/Rge groups and sections per group, a marker sequence of that shape makes the walk stage exactly one component per section, in reading order, '
-                   'with its own section value, the Twp/Rge of its own group and the cleaned text that follows it (premises shown satisfiable on a real two-group chunk). What the regex finders report for '
-                   'every rendering, and the other three layouts, are not theorems: they are decided on each run by the expected_tracts(D) oracle over random descriptions x layouts x spellings x separators, incl. '
+                   'compared run; the four documented layout examples are proved by computation on the regenerated patterns (C01_documented_examples). Unbounded theorems for ALL FOUR layouts '
+                   '(C01_walk_trs_desc, C01_walk_s_desc_tr, C01_walk_tr_desc_s, C01_walk_desc_str): for ANY number of Twp/Rge groups and sections per group, a marker sequence of the layout\'s shape makes the walk '
+                   'stage exactly one component per section, in reading order, with its own section value, the Twp/Rge of its own group and the cleaned block that belongs to it (premises shown satisfiable '
+                   'on a real two-group chunk). What the regex finders report for every rendering is not a theorem: they are decided on each run by the expected_tracts(D) oracle over random descriptions x layouts x spellings x separators, incl. '
                    'the pretty_desc round trip (known finding: multi-line blocks). ' + _PLSS_TIE,
 }
 PROPS['C03'] = {
